@@ -215,12 +215,16 @@ def c_compute(ctx, it, cfg):
     ctx.prove('one-post-processing-and-one-average-per-node', len(posts) == 2 and len(avgs) == 2 and cnt[0] == 2)
 
     def same(a, b):
-        return isinstance(a, ArrBase) and tuple(a.shape) == tuple(b.shape) and and_(*[eq(u, v_) for u, v_ in zip(a.tolist() if a.ndim == 1 else sum(a.tolist(), []), b.tolist() if b.ndim == 1 else sum(b.tolist(), []))]) is not False
+        """-> False, or the (possibly symbolic) statement that the two arrays have equal entries"""
+        if not (isinstance(a, ArrBase) and tuple(a.shape) == tuple(b.shape)):
+            return False
+        return and_(*[eq(u, v_) for u, v_ in zip(a.tolist() if a.ndim == 1 else sum(a.tolist(), []), b.tolist() if b.ndim == 1 else sum(b.tolist(), []))])
     for k in range(min(2, len(posts))):
         M, F, mu = nodes[k]
-        ctx.prove('node%d/post-processing-gets-the-user-arguments-and-this-nodes-arrays' % k, posts[k][1] is therm and posts[k][4] == ('BCC_A2',) and same(posts[k][2], M) and same(posts[k][3], F))
+        ctx.prove('node%d/post-processing-gets-the-user-arguments' % k, posts[k][1] is therm and posts[k][4] == ('BCC_A2',))
+        ctx.prove('node%d/post-processing-gets-this-nodes-arrays' % k, and_(same(posts[k][2], M), same(posts[k][3], F)))
         names = posts[k][5].get('phases')
         ctx.prove('node%d/post-processing-receives-the-names-of-the-phases-stable-at-this-node' % k,
                   names is not None and ([names.get(i) for i in range(names.shape[0])] if isinstance(names, ArrBase) else list(names)) == stable[k])
-        ctx.prove('node%d/averaging-uses-the-post-processed-arrays-and-the-labyrinth-factor' % k, same(avgs[k][1], M) and same(avgs[k][2], F) and 'labyrinth_factor' in avgs[k][3])
+        ctx.prove('node%d/averaging-uses-the-post-processed-arrays-and-the-labyrinth-factor' % k, and_(same(avgs[k][1], M), same(avgs[k][2], F), 'labyrinth_factor' in avgs[k][3]))
         ctx.prove('node%d/chemical-potentials-of-this-node' % k, and_(eq(pot.get(k, 0), mu.get(0)), eq(pot.get(k, 1), mu.get(1))))
